@@ -41,7 +41,8 @@ PROPS = {
     "C03": {
         "design_ref": "6.1/C03",
         "lean_modules": ["Tulz.Props.C03"],
-        "theorems": ["Rwp.C03_no_overtake", "Rwp.C03_pending_order", "Rwp.C03_admitted_together_are_readers"],
+        "theorems": ["Rwp.C03_no_overtake", "Rwp.C03_pending_order", "Rwp.C03_admitted_together_are_readers",
+                     "Rwp.C03_never_granted_before_earlier_waiter"],
         "technique": "Lean 4 invariant proof with ghost arrival stamps (ticket order = arrival order; everybody inside arrived before everybody pending), any number of threads; FIFO trace monitor + lock-step replay on the real code",
         "level_text": "Machine-checked proof that whoever is inside the lock (holding, or admitted and about to wake) issued its request before every request still pending, that pending tickets are ordered by arrival, and that requests admitted together form one read batch with no writer ticket between them; hence a later request is never granted before an earlier waiting one except reads of one batch. Tied to Resource.cpp by lock-step replay and by a direct monitor of (park(a) < call(b) and ret(b) < ret(a)) pairs on every explored execution.",
         "level_note": "Trusted: as C01. 'Already waiting' = parked (its enqueue critical section completed) before the later call is issued.",
